@@ -284,3 +284,12 @@ PROPS["C13"]["claim"] = ("Lean 4 theorems about an executable byte-level model o
     "over the path's components), hence idempotent, same denotation, normal form (no '.', empty, or 'name/..' components; leading "
     "'..' and the root kept; a trailing separator is significant), and two spellings get the same canonical bytes iff they denote "
     "the same location; never lengthens; the empty path is the only refused input. ") + PROPS["C13"]["claim"]
+
+PROPS["C12"]["claim"] = ("TOTALITY PROVED AT BYTE LEVEL for both parsers, for every input (Lemmas/Scanner, DepfileTotal, ParseTotal): over any "
+    "NUL-terminated buffer, from a scanner in good standing, depfile::parse and one round of the manifest parser's Parser::read "
+    "(all statement kinds, sub-parsers, escapes, continuations) return a value or a parse error with an offset; reading outside "
+    "the buffer, stepping back before the start, wrapping the line counter and running out of fuel (a loop that does not advance) "
+    "are unreachable, including under scanner.back's two-byte retreat over CR LF; every non-EOF item consumes a byte, so the "
+    "statement loop ends. ") + PROPS["C12"]["claim"]
+PROPS["C15"]["claim"] += (" The byte-level parser is TOTAL for every byte string (depfile_parse_total): entries or a parse error, never an "
+    "out-of-bounds read, a wrapped counter or a non-advancing loop.")
